@@ -16,9 +16,9 @@ ASSUMPTIONS = TRUSTED_BASE + [
     "proved: EngineBase.propagate (the set-up shared by the external engines) dumps the given point, reverses velocities exactly when the requested direction differs from the point's, starts the engine's own "
     "_propagate_from exactly once from that file / frame 0 with the requested direction and returns its result; dump_frame / _reverse_velocities / _propagate_from are recording stubs (engine specific, not verified here)",
     "proved (slices of the real _propagate_from ASTs, contracts/engines_loops2.py): the CP2K consumption loop (two queues: positions and velocities of frame k are paired, one file frame per phase point, queues stay aligned between polls) "
-    "and its failure statement; the GROMACS frame loop (own x / v / box, velocity direction as announced by vel_rev -- refuted on the original tree: fix fa7c73d); the ASE in-process loop (the arrays the order is computed from are the ones written as frame k). "
+    "and its failure statement; the GROMACS frame loop (own x / v / box, velocity direction as announced by vel_rev -- refuted on the original tree: fix fa7c73d); the ASE and TurtleMD in-process loops (the arrays the order is computed from are the ones written as frame k; TurtleMD: the xyz buffers are refreshed from the current MD state before the write). "
     "Assumed there: the reader hands out frame k as its k-th item (C13), EngineBase.calculate_order applies vel_rev (E2 clause above), system.vel_rev == reverse on entry (postcondition of EngineBase.propagate)",
-    "NOT covered: the polling / waiting code around those loops, GromacsRunner (generator with try/except), the TurtleMD loop deductively (bounded native only), process clean-up of GROMACS, retrace-under-time-reversal (engine property)",
+    "NOT covered: the polling / waiting code around those loops, GromacsRunner (generator with try/except), process clean-up of GROMACS, retrace-under-time-reversal (engine property)",
 ]
 EXPLANATION = (
     "What a contract can reach is the Python driver, not the MD programs. The stop rule shared by all engines is proved against an exact specification; the LAMMPS frame-consumption loop is verified on the real AST with a "
@@ -35,6 +35,7 @@ def jobs(tier):
         ("e1", {"name": "cp2k_failure", "registry": "contracts.engines_loops2", "key": "CP2KEngine._propagate_from#failure", "clause": "CP2K failure raises", "cost": 1, "parallel": 1}),
         ("e1", {"name": "gromacs_frame_loop", "registry": "contracts.engines_loops2", "key": "GromacsEngine._propagate_from#frames", "clause": "GROMACS: frame k uses its own x, v, box with the velocity direction of its vel_rev flag; stored as (trr, k)", "cost": 1, "parallel": 2}),
         ("e1", {"name": "ase_frame_loop", "registry": "contracts.engines_loops2", "key": "ASEEngine._propagate_from#frames", "clause": "ASE: the order of phase point k is computed from the arrays written as file frame k (same dynamics version), stored as (traj, k)", "cost": 1, "parallel": 2}),
+        ("e1", {"name": "turtlemd_frame_loop", "registry": "contracts.engines_loops2", "key": "TurtleMDEngine._propagate_from#frames", "clause": "TurtleMD: the xyz buffers written as frame k are refreshed from the current MD state, the order is computed from that same state, stored as (file, k)", "cost": 1, "parallel": 2}),
         ("e1", {"name": "lammps_consume_loop", "registry": "contracts.engines_loops", "key": "LAMMPSEngine._propagate_from#consume", "clause": "frame k uses its own data", "cost": 2, "parallel": 2}),
         ("e1", {"name": "lammps_failure", "registry": "contracts.engines_loops", "key": "LAMMPSEngine._propagate_from#failure", "clause": "failure raises", "cost": 1, "parallel": 1}),
         ("py", {"name": "distancevel_engine_vel_rev", "module": "props.C20", "fn": "run_clause", "clause": "distancevel_engine_vel_rev"}),
